@@ -1,2 +1,2 @@
 """switch: are the machine-level (mailbox-cluster engine) obligations part of the registered checks yet?"""
-CLUSTER_READY = False
+CLUSTER_READY = True
